@@ -808,6 +808,29 @@ Proof.
   - intros v Hv. rewrite Hv in H7. exact H7.
 Qed.
 
+Lemma wf_ballot_intro vt names b :
+  NoDup (b_projects b) -> (forall n, In n (b_projects b) -> In n names) ->
+  (if is_cardinal vt then List.length (b_points b) = List.length (b_projects b) else b_points b = []) ->
+  Forall (fun q => Qcanon q = true) (b_points b) ->
+  NoDup (keys (b_meta b)) ->
+  (forall kv, In kv (b_meta b) ->
+     stripped (fst kv) = true /\ fst kv <> K_vote /\ fst kv <> K_points /\ cell_ok (snd kv) = true) ->
+  (forall v, lookup K_voter_id (b_meta b) = Some v -> not_keyword v = true) ->
+  1 <= b_mult b ->
+  wf_ballot vt names b = true.
+Proof.
+  intros H1 H2 H3 H4 H5 H6 H7 H8. unfold wf_ballot. rewrite !andb_true_iff. repeat split.
+  - apply nodup_strb_NoDup; exact H1.
+  - apply forallb_forall. intros n Hn. apply mem_str_In, H2, Hn.
+  - destruct (is_cardinal vt); [apply Nat.eqb_eq; exact H3|now rewrite H3].
+  - apply forallb_forall. rewrite Forall_forall in H4. exact H4.
+  - apply nodup_strb_NoDup; exact H5.
+  - apply forallb_forall. intros kv Hkv. destruct (H6 kv Hkv) as (A & B & C & D).
+    apply str_eqb_neq in B, C. now rewrite A, B, C, D.
+  - destruct (lookup K_voter_id (b_meta b)) eqn:E; [apply H7; reflexivity|reflexivity].
+  - apply Nat.leb_le; exact H8.
+Qed.
+
 Definition vd_base (vt : vtype) (index : nat) (b : ballot) : dict :=
   let bm := b_meta b in
   let d := [(K_voter_id, match lookup K_voter_id bm with Some v => v | None => show_nat index end)] in
@@ -1786,4 +1809,958 @@ Theorem parse_write_roundtrip e :
   wf_electionb show_num read_num show_nat read_nat e = true ->
   parse_rows read_num read_nat (write_rows show_num show_nat e) = Some (canon show_num show_nat e).
 Proof. intros H. apply parse_write_roundtrip_facts. apply wf_election_facts. exact H. Qed.
+
+(* ============================================================================================ *)
+(* F. a second round trip changes nothing: [canon e] is well-formed and [canon] is idempotent up to   *)
+(*    the order of dictionary entries                                                               *)
+(* ============================================================================================ *)
+Definition dict_equiv (d1 d2 : dict) : Prop :=
+  NoDup (keys d1) /\ NoDup (keys d2) /\ forall k, lookup k d1 = lookup k d2.
+
+Lemma NoDup_pairs (d : dict) : NoDup (keys d) -> NoDup d.
+Proof. unfold keys. apply NoDup_map_inv. Qed.
+
+Lemma dict_equiv_perm d1 d2 : dict_equiv d1 d2 -> Permutation d1 d2.
+Proof.
+  intros (H1 & H2 & H). apply NoDup_Permutation; try (apply NoDup_pairs; assumption).
+  intros [k v]. split; intros Hin.
+  - apply lookup_In. rewrite <- H. apply In_lookup; assumption.
+  - apply lookup_In. rewrite H. apply In_lookup; assumption.
+Qed.
+
+Record project_equiv (p q : project) : Prop := {
+  pe_name : p_name p = p_name q; pe_cost : p_cost p = p_cost q;
+  pe_cats : p_cats p = p_cats q; pe_targets : p_targets p = p_targets q;
+  pe_meta : Permutation (p_meta p) (p_meta q) }.
+
+Record ballot_equiv (a b : ballot) : Prop := {
+  be_projects : b_projects a = b_projects b; be_points : b_points a = b_points b;
+  be_mult : b_mult a = b_mult b; be_meta : Permutation (b_meta a) (b_meta b) }.
+
+(* equal up to the order of the entries of the dictionaries (Python dict equality) *)
+Record election_equiv (a b : election) : Prop := {
+  ee_meta : Permutation (e_meta a) (e_meta b);
+  ee_projects : Forall2 project_equiv (e_projects a) (e_projects b);
+  ee_budget : e_budget a = e_budget b; ee_vtype : e_vtype a = e_vtype b;
+  ee_ballots : Forall2 ballot_equiv (e_ballots a) (e_ballots b);
+  ee_l1 : e_min_len a = e_min_len b; ee_l2 : e_max_len a = e_max_len b;
+  ee_l3 : e_min_cost a = e_min_cost b; ee_l4 : e_max_cost a = e_max_cost b;
+  ee_l5 : e_min_total a = e_min_total b; ee_l6 : e_max_total a = e_max_total b;
+  ee_l7 : e_min_score a = e_min_score b; ee_l8 : e_max_score a = e_max_score b }.
+
+(* ---- the dictionaries of the writer as filters ---- *)
+Definition pd_keep (d : dict) (kv : str * str) : bool :=
+  negb (has_key (fst kv) d || str_eqb (fst kv) K_categories || str_eqb (fst kv) K_targets).
+
+Lemma has_key_snoc k d kv : k <> fst kv -> has_key k (d ++ [kv]) = has_key k d.
+Proof.
+  intros H. unfold has_key. rewrite lookup_app. destruct (lookup k d); [reflexivity|].
+  destruct kv as [k' v']. simpl in *. apply str_eqb_neq in H. now rewrite H.
+Qed.
+
+Lemma pd_fold_filter m : NoDup (keys m) -> forall d, fold_left pd_step m d = d ++ filter (pd_keep d) m.
+Proof.
+  induction m as [|kv m IH]; intros Hnd d; simpl; [now rewrite app_nil_r|].
+  inversion Hnd as [|? ? Hnin Hnd']; subst. rewrite IH by assumption.
+  unfold pd_step, pd_keep at 2.
+  destruct (has_key (fst kv) d || str_eqb (fst kv) K_categories || str_eqb (fst kv) K_targets) eqn:E; simpl.
+  - reflexivity.
+  - rewrite <- app_assoc. simpl. f_equal. f_equal. apply filter_ext_in. intros kv' Hin.
+    unfold pd_keep. rewrite has_key_snoc; [reflexivity|].
+    intros Heq. apply Hnin. rewrite <- Heq. apply (in_map fst) in Hin. exact Hin.
+Qed.
+
+Definition vd_keep (d : dict) (kv : str * str) : bool := negb (has_key (fst kv) d).
+
+Lemma vd_fold_filter m : NoDup (keys m) -> forall d, fold_left vd_step m d = d ++ filter (vd_keep d) m.
+Proof.
+  induction m as [|kv m IH]; intros Hnd d; simpl; [now rewrite app_nil_r|].
+  inversion Hnd as [|? ? Hnin Hnd']; subst. rewrite IH by assumption.
+  unfold vd_step, vd_keep at 2. destruct (has_key (fst kv) d) eqn:E; simpl.
+  - reflexivity.
+  - rewrite <- app_assoc. simpl. f_equal. f_equal. apply filter_ext_in. intros kv' Hin.
+    unfold vd_keep. rewrite has_key_snoc; [reflexivity|].
+    intros Heq. apply Hnin. rewrite <- Heq. apply (in_map fst) in Hin. exact Hin.
+Qed.
+
+Lemma lookup_project_dict p k : NoDup (keys (p_meta p)) ->
+  lookup k (project_dict p)
+  = match lookup k (pd_base p) with
+    | Some v => Some v
+    | None => if str_eqb k K_categories || str_eqb k K_targets then None else lookup k (p_meta p)
+    end.
+Proof.
+  intros Hnd. rewrite project_dict_unfold, pd_fold_filter by assumption. rewrite lookup_app.
+  destruct (lookup k (pd_base p)) as [v|] eqn:E; [reflexivity|].
+  unfold pd_keep.
+  rewrite (lookup_filter_key (fun k => negb (has_key k (pd_base p) || str_eqb k K_categories || str_eqb k K_targets))).
+  unfold has_key. rewrite E. simpl. destruct (str_eqb k K_categories || str_eqb k K_targets); reflexivity.
+Qed.
+
+Lemma lookup_vote_dict vt i b k : NoDup (keys (b_meta b)) ->
+  lookup k (vote_dict vt i b)
+  = match lookup k (vd_base vt i b) with Some v => Some v | None => lookup k (b_meta b) end.
+Proof.
+  intros Hnd. rewrite vote_dict_unfold, vd_fold_filter by assumption. rewrite lookup_app.
+  destruct (lookup k (vd_base vt i b)) as [v|] eqn:E; [reflexivity|].
+  unfold vd_keep. rewrite (lookup_filter_key (fun k => negb (has_key k (vd_base vt i b)))).
+  unfold has_key. now rewrite E.
+Qed.
+
+(* ---- projects ---- *)
+Lemma lookup_row_dict_cov ks d k :
+  NoDup ks -> (forall k, In k (keys d) -> In k ks) -> lookup k (row_dict ks d) = lookup k d.
+Proof.
+  intros Hnd Hcov. rewrite lookup_row_dict by assumption.
+  destruct (lookup k d) as [v|] eqn:E.
+  - assert (M : mem_str k ks = true) by (apply mem_str_In, Hcov; eapply lookup_Some_key; eauto). now rewrite M.
+  - destruct (mem_str k ks); reflexivity.
+Qed.
+
+Lemma In_row_dict ks d kv : In kv (row_dict ks d) -> In kv d.
+Proof.
+  induction ks as [|k ks IH]; [simpl; tauto|]. rewrite row_dict_cons. intros H. apply in_app_or in H as [H|H].
+  - destruct (lookup k d) as [v|] eqn:E; simpl in H; [|tauto]. destruct H as [<-|[]]. apply lookup_In; exact E.
+  - apply IH; exact H.
+Qed.
+
+Section CanonProject.
+Variable p : project.
+Variable K : list str.
+Hypothesis Wp : wf_project p = true.
+Hypothesis HK : NoDup K.
+Hypothesis Hcov : forall k, In k (keys (project_dict p)) -> In k K.
+
+Let p' := canon_project show_num K p.
+
+Lemma canon_project_meta_lookup k :
+  lookup k (p_meta p') = if is_list_key k then None else lookup k (project_dict p).
+Proof.
+  unfold p', canon_project. cbn [p_meta].
+  rewrite (lookup_filter_key (fun k => negb (is_list_key k))).
+  destruct (is_list_key k); [reflexivity|]. simpl. apply lookup_row_dict_cov; assumption.
+Qed.
+
+Lemma canon_project_meta_nodup : NoDup (keys (p_meta p')).
+Proof. unfold p', canon_project. cbn [p_meta]. apply NoDup_keys_filter, NoDup_keys_row_dict; assumption. Qed.
+
+Lemma lookup_name_base : lookup K_name (pd_base p) = lookup K_name (p_meta p).
+Proof.
+  unfold pd_base. destruct (lookup K_name (p_meta p)) as [v|] eqn:E;
+    destruct (p_cats p); destruct (p_targets p); reflexivity.
+Qed.
+
+Lemma canon_project_base : pd_base p' = pd_base p.
+Proof.
+  pose proof (wf_project_inv p Wp) as (_ & _ & _ & _ & _ & _ & _ & Hnd & _).
+  assert (E : lookup K_name (p_meta p') = lookup K_name (p_meta p)).
+  { rewrite canon_project_meta_lookup. change (is_list_key K_name) with false. cbv iota.
+    rewrite lookup_project_dict by assumption. rewrite lookup_name_base.
+    destruct (lookup K_name (p_meta p)); reflexivity. }
+  unfold pd_base. rewrite E. reflexivity.
+Qed.
+
+Lemma canon_project_dict_lookup k : lookup k (project_dict p') = lookup k (project_dict p).
+Proof.
+  pose proof (wf_project_inv p Wp) as (_ & _ & _ & _ & _ & _ & _ & Hnd & Hm).
+  rewrite (lookup_project_dict p') by apply canon_project_meta_nodup.
+  rewrite (lookup_project_dict p) by assumption. rewrite canon_project_base.
+  destruct (lookup k (pd_base p)) as [v|] eqn:E; [reflexivity|].
+  destruct (str_eqb k K_categories || str_eqb k K_targets) eqn:E2; [reflexivity|].
+  rewrite canon_project_meta_lookup. destruct (is_list_key k) eqn:E3.
+  - (* category / target: not a key of the metadata of a well-formed project *)
+    destruct (lookup k (p_meta p)) as [v|] eqn:E4; [|reflexivity].
+    apply lookup_In in E4. destruct (Hm _ E4) as (_ & Hl & _). simpl in Hl. congruence.
+  - rewrite (lookup_project_dict p) by assumption. now rewrite E, E2.
+Qed.
+
+Lemma canon_project_wf : wf_project p' = true.
+Proof.
+  pose proof (wf_project_inv p Wp) as (A1 & A2 & A3 & A4 & A5 & A6 & A7 & _ & _).
+  destruct (project_dict_spec p Wp) as (_ & Hok & _).
+  unfold wf_project. unfold p' at 1 2 3 4 5 6 7. cbn [canon_project p_name p_cost p_cats p_targets].
+  rewrite A1, A2, A3, A5, A6, A7. destruct (p_name p) as [|c r] eqn:En; [contradiction|]. cbn [andb].
+  apply andb_true_iff. split; [apply nodup_strb_NoDup, canon_project_meta_nodup|].
+  apply forallb_forall. intros [k v] Hkv. unfold p', canon_project in Hkv. cbn [p_meta] in Hkv.
+  apply filter_In in Hkv as (Hin & Hnl). apply In_row_dict in Hin. cbn [fst snd] in *.
+  rewrite Forall_forall in Hok. destruct (Hok _ Hin) as (Hs & _ & _ & _ & _ & Hoth). cbn [fst snd] in *.
+  rewrite Hs, Hnl. apply negb_true_iff, is_list_key_false in Hnl as (L1 & _ & L3 & _).
+  rewrite (Hoth L1 L3). reflexivity.
+Qed.
+
+End CanonProject.
+
+Lemma canon_project_idem p K K' :
+  wf_project p = true -> NoDup K -> (forall k, In k (keys (project_dict p)) -> In k K) ->
+  NoDup K' -> (forall k, In k (keys (project_dict (canon_project show_num K p))) -> In k K') ->
+  project_equiv (canon_project show_num K' (canon_project show_num K p)) (canon_project show_num K p).
+Proof.
+  intros Wp HK Hcov HK' Hcov'. constructor; try reflexivity.
+  apply dict_equiv_perm. split; [|split].
+  - apply NoDup_keys_filter, NoDup_keys_row_dict; assumption.
+  - apply canon_project_meta_nodup; assumption.
+  - intros k. rewrite (canon_project_meta_lookup (canon_project show_num K p) K' HK' Hcov').
+    rewrite (canon_project_meta_lookup p K HK Hcov).
+    destruct (is_list_key k); [reflexivity|]. apply canon_project_dict_lookup; assumption.
+Qed.
+
+(* ---- ballots ---- *)
+Definition popped (vt : vtype) (k : str) : bool :=
+  str_eqb k K_vote || (is_cardinal vt && str_eqb k K_points).
+
+Section CanonBallot.
+Variable names : list str.
+Hypothesis names_ok : forall n, In n names -> cell_ok n = true /\ no_comma n = true /\ n <> [].
+Variable vt : vtype.
+Variable i : nat.
+Variable b : ballot.
+Variable VK : list str.
+Hypothesis Wb : wf_ballot vt names b = true.
+Hypothesis HVK : NoDup VK.
+Hypothesis Hcov : forall k, In k (keys (vote_dict vt i b)) -> In k VK.
+
+Let b' := canon_ballot show_num show_nat vt VK i b.
+Let vd := vote_dict vt i b.
+
+Lemma canon_ballot_meta_lookup k :
+  lookup k (b_meta b') = if popped vt k then None else lookup k vd.
+Proof.
+  unfold b', canon_ballot, popped. cbn [b_meta].
+  rewrite (lookup_filter_key (fun k => negb (str_eqb k K_vote || is_cardinal vt && str_eqb k K_points))).
+  destruct (str_eqb k K_vote || is_cardinal vt && str_eqb k K_points); [reflexivity|]. simpl.
+  apply lookup_row_dict_cov; assumption.
+Qed.
+
+Lemma canon_ballot_meta_nodup : NoDup (keys (b_meta b')).
+Proof. unfold b', canon_ballot. cbn [b_meta]. apply NoDup_keys_filter, NoDup_keys_row_dict; assumption. Qed.
+
+Lemma bmeta_nodup : NoDup (keys (b_meta b)).
+Proof. apply wf_ballot_inv in Wb. tauto. Qed.
+
+Lemma lookup_opt_key k :
+  k = $"age" \/ k = $"sex" \/ k = $"voting_method" -> lookup k vd = lookup k (b_meta b).
+Proof.
+  intros Hk. unfold vd. rewrite lookup_vote_dict by apply bmeta_nodup. unfold vd_base.
+  destruct (lookup $"age" (b_meta b)) as [v1|] eqn:E1;
+    destruct (lookup $"sex" (b_meta b)) as [v2|] eqn:E2;
+    destruct (lookup $"voting_method" (b_meta b)) as [v3|] eqn:E3;
+    destruct (is_cardinal vt);
+    destruct Hk as [-> | [-> | ->]]; rewrite ?E1, ?E2, ?E3; reflexivity.
+Qed.
+
+Definition the_id : str := match lookup K_voter_id (b_meta b) with Some v => v | None => show_nat i end.
+
+Lemma lookup_voter_id : lookup K_voter_id vd = Some the_id.
+Proof.
+  unfold vd. rewrite lookup_vote_dict by apply bmeta_nodup. unfold vd_base, the_id.
+  destruct (lookup $"age" (b_meta b)); destruct (lookup $"sex" (b_meta b));
+    destruct (lookup $"voting_method" (b_meta b)); destruct (is_cardinal vt); reflexivity.
+Qed.
+
+Lemma canon_ballot_points : b_points b' = b_points b.
+Proof.
+  unfold b', canon_ballot. cbn [b_points]. pose proof (wf_ballot_inv _ _ _ Wb) as (_ & _ & H & _).
+  destruct (is_cardinal vt); [reflexivity|]. now rewrite H.
+Qed.
+
+Lemma canon_ballot_base j : vd_base vt j b' = vd_base vt i b.
+Proof.
+  assert (Eid : lookup K_voter_id (b_meta b') = Some the_id).
+  { rewrite canon_ballot_meta_lookup. unfold popped.
+    change (str_eqb K_voter_id K_vote) with false. change (str_eqb K_voter_id K_points) with false.
+    rewrite andb_false_r. cbn [orb]. apply lookup_voter_id. }
+  assert (Eopt : forall k, k = $"age" \/ k = $"sex" \/ k = $"voting_method" ->
+                           lookup k (b_meta b') = lookup k (b_meta b)).
+  { intros k Hk. rewrite canon_ballot_meta_lookup. rewrite <- (lookup_opt_key k Hk).
+    assert (P : popped vt k = false).
+    { unfold popped. destruct Hk as [-> | [-> | ->]];
+        match goal with |- str_eqb ?a K_vote || _ = false =>
+          change (str_eqb a K_vote) with false; change (str_eqb a K_points) with false end;
+        now rewrite andb_false_r. }
+    now rewrite P. }
+  unfold vd_base. rewrite Eid, !Eopt by tauto. rewrite canon_ballot_points.
+  unfold b' at 1. cbn [canon_ballot b_projects]. reflexivity.
+Qed.
+
+Lemma base_has_popped k : popped vt k = true -> lookup k (vd_base vt i b) <> None.
+Proof.
+  destruct (vd_base_spec names names_ok vt i b Wb) as (Hnd & _ & _ & Hv & Hp).
+  unfold popped. intros H. apply orb_true_iff in H as [H|H].
+  - apply str_eqb_eq in H. subst k. rewrite (In_lookup _ _ _ Hnd Hv). discriminate.
+  - apply andb_true_iff in H as (Hc & H). apply str_eqb_eq in H. subst k.
+    rewrite (In_lookup _ _ _ Hnd (Hp Hc)). discriminate.
+Qed.
+
+Lemma canon_ballot_dict_lookup j k : lookup k (vote_dict vt j b') = lookup k vd.
+Proof.
+  rewrite (lookup_vote_dict vt j b') by apply canon_ballot_meta_nodup.
+  unfold vd. rewrite (lookup_vote_dict vt i b) by apply bmeta_nodup. rewrite canon_ballot_base.
+  destruct (lookup k (vd_base vt i b)) as [v|] eqn:E; [reflexivity|].
+  rewrite canon_ballot_meta_lookup. destruct (popped vt k) eqn:P.
+  - exfalso. apply (base_has_popped k P). exact E.
+  - unfold vd. rewrite (lookup_vote_dict vt i b) by apply bmeta_nodup. now rewrite E.
+Qed.
+
+Lemma canon_ballot_wf : wf_ballot vt names b' = true.
+Proof.
+  pose proof (wf_ballot_inv _ _ _ Wb) as (A1 & A2 & A3 & A4 & _ & A6 & A7).
+  destruct (vote_dict_spec names names_ok vt i b Wb) as (_ & Hok & _).
+  apply wf_ballot_intro.
+  - exact A1.
+  - exact A2.
+  - rewrite canon_ballot_points. exact A3.
+  - rewrite canon_ballot_points. exact A4.
+  - apply canon_ballot_meta_nodup.
+  - intros [k x] Hkx. unfold b', canon_ballot in Hkx. cbn [b_meta] in Hkx.
+    apply filter_In in Hkx as (Hin & Hp). apply In_row_dict in Hin. cbn [fst snd] in *.
+    rewrite Forall_forall in Hok. destruct (Hok _ Hin) as (Hs & Hc). cbn [fst snd] in *.
+    apply negb_true_iff, orb_false_iff in Hp as (P1 & P2).
+    split; [exact Hs|]. split; [apply str_eqb_neq; exact P1|]. split; [|exact Hc].
+    destruct (is_cardinal vt) eqn:Ec; [apply str_eqb_neq; exact P2|].
+    (* not cardinal: the dictionary has no points entry at all *)
+    intros ->.
+    pose proof (lookup_vote_dict vt i b K_points bmeta_nodup) as L.
+    assert (Lb : lookup K_points (vd_base vt i b) = None).
+    { unfold vd_base. rewrite Ec.
+      destruct (lookup $"age" (b_meta b)); destruct (lookup $"sex" (b_meta b));
+        destruct (lookup $"voting_method" (b_meta b)); reflexivity. }
+    rewrite Lb in L.
+    assert (Lm : lookup K_points (b_meta b) = None).
+    { destruct (lookup K_points (b_meta b)) eqn:E'; [|reflexivity]. apply lookup_In in E'.
+      destruct (A6 _ E') as (_ & _ & Hne & _). exfalso. apply Hne. reflexivity. }
+    rewrite Lm in L. apply lookup_None in L. apply L. apply (in_map fst) in Hin. exact Hin.
+  - intros x Hx. rewrite canon_ballot_meta_lookup in Hx. unfold popped in Hx.
+    change (str_eqb K_voter_id K_vote) with false in Hx. change (str_eqb K_voter_id K_points) with false in Hx.
+    rewrite andb_false_r in Hx. cbn [orb] in Hx. rewrite lookup_voter_id in Hx. injection Hx as <-.
+    unfold the_id. destruct (lookup K_voter_id (b_meta b)) as [y|] eqn:E; [apply A7; reflexivity|apply nat_text].
+  - unfold b', canon_ballot. cbn [b_mult]. lia.
+Qed.
+
+End CanonBallot.
+
+Lemma canon_ballot_idem names vt i b VK VK' j :
+  (forall n, In n names -> cell_ok n = true /\ no_comma n = true /\ n <> []) ->
+  wf_ballot vt names b = true -> NoDup VK -> (forall k, In k (keys (vote_dict vt i b)) -> In k VK) ->
+  NoDup VK' -> (forall k, In k (keys (vote_dict vt i b)) -> In k VK') ->
+  ballot_equiv (canon_ballot show_num show_nat vt VK' j (canon_ballot show_num show_nat vt VK i b))
+               (canon_ballot show_num show_nat vt VK i b).
+Proof.
+  intros Hn Wb HVK Hcov HVK' Hcov'.
+  assert (Hcov2 : forall k, In k (keys (vote_dict vt j (canon_ballot show_num show_nat vt VK i b))) -> In k VK').
+  { intros k Hk. apply Hcov'. apply has_key_true. apply has_key_true in Hk. unfold has_key in *.
+    rewrite (canon_ballot_dict_lookup names Hn vt i b VK Wb HVK Hcov j k) in Hk. exact Hk. }
+  constructor.
+  - reflexivity.
+  - unfold canon_ballot at 1. cbn [b_points]. rewrite (canon_ballot_points names vt i b VK Wb).
+    pose proof (wf_ballot_inv _ _ _ Wb) as (_ & _ & H & _). destruct (is_cardinal vt); [reflexivity|now rewrite H].
+  - reflexivity.
+  - apply dict_equiv_perm. split; [|split].
+    + apply canon_ballot_meta_nodup; assumption.
+    + apply canon_ballot_meta_nodup; assumption.
+    + intros k. rewrite (canon_ballot_meta_lookup vt j _ VK' HVK' Hcov2 k).
+      rewrite (canon_ballot_meta_lookup vt i b VK HVK Hcov k).
+      destruct (popped vt k); [reflexivity|].
+      apply (canon_ballot_dict_lookup names Hn vt i b VK Wb HVK Hcov).
+Qed.
+
+Lemma vote_dicts_app vt l1 : forall j l2,
+  vote_dicts show_num show_nat vt j (l1 ++ l2)
+  = vote_dicts show_num show_nat vt j l1 ++ vote_dicts show_num show_nat vt (j + List.length l1) l2.
+Proof.
+  induction l1 as [|b l1 IH]; intros j l2; simpl.
+  - now rewrite Nat.add_0_r.
+  - rewrite IH. replace (j + S (List.length l1)) with (S j + List.length l1) by lia. reflexivity.
+Qed.
+
+Lemma canon_ballots_app vt K l1 : forall j l2,
+  canon_ballots show_num show_nat vt K j (l1 ++ l2)
+  = canon_ballots show_num show_nat vt K j l1 ++ canon_ballots show_num show_nat vt K (j + List.length l1) l2.
+Proof.
+  induction l1 as [|b l1 IH]; intros j l2; simpl.
+  - now rewrite Nat.add_0_r.
+  - rewrite IH, <- app_assoc. replace (j + S (List.length l1)) with (S j + List.length l1) by lia. reflexivity.
+Qed.
+
+Section CanonBallots.
+Variable names : list str.
+Hypothesis names_ok : forall n, In n names -> cell_ok n = true /\ no_comma n = true /\ n <> [].
+Variable vt : vtype.
+Variable VK VK' : list str.
+Hypothesis HVK : NoDup VK.
+Hypothesis HVK' : NoDup VK'.
+
+Definition covers (K : list str) (ds : list dict) : Prop :=
+  forall d, In d ds -> forall k, In k (keys d) -> In k K.
+
+Lemma canon_repeat_idem i b m : forall j,
+  wf_ballot vt names b = true ->
+  (forall k, In k (keys (vote_dict vt i b)) -> In k VK) ->
+  (forall k, In k (keys (vote_dict vt i b)) -> In k VK') ->
+  Forall2 ballot_equiv
+    (canon_ballots show_num show_nat vt VK' j (repeat (canon_ballot show_num show_nat vt VK i b) m))
+    (repeat (canon_ballot show_num show_nat vt VK i b) m).
+Proof.
+  intros j Wb Hc Hc'. revert j. induction m as [|m IH]; intros j; simpl; [constructor|].
+  constructor; [|apply IH].
+  apply (canon_ballot_idem names vt i b VK VK' j names_ok Wb HVK Hc HVK' Hc').
+Qed.
+
+Lemma canon_ballots_idem l : forall i j,
+  Forall (fun b => wf_ballot vt names b = true) l ->
+  covers VK (map fst (vote_dicts show_num show_nat vt i l)) ->
+  covers VK' (map fst (vote_dicts show_num show_nat vt i l)) ->
+  Forall2 ballot_equiv
+    (canon_ballots show_num show_nat vt VK' j (canon_ballots show_num show_nat vt VK i l))
+    (canon_ballots show_num show_nat vt VK i l).
+Proof.
+  induction l as [|b l IH]; intros i j Hl Hc Hc'; [constructor|].
+  inversion Hl as [|? ? Wb Hl']; subst. rewrite vote_dicts_cons in Hc, Hc'. cbn [canon_ballots].
+  rewrite canon_ballots_app. apply Forall2_app.
+  - apply canon_repeat_idem; [exact Wb| |].
+    + intros k Hk. apply (Hc (vote_dict vt i b)); [left; reflexivity|exact Hk].
+    + intros k Hk. apply (Hc' (vote_dict vt i b)); [left; reflexivity|exact Hk].
+  - apply IH; [exact Hl'| |]; intros d Hd; [apply Hc|apply Hc']; right; exact Hd.
+Qed.
+
+(* the written dictionaries of the canonical ballots have the keys of the original ones *)
+Lemma canon_dicts_cover l : forall i j,
+  Forall (fun b => wf_ballot vt names b = true) l ->
+  covers VK (map fst (vote_dicts show_num show_nat vt i l)) ->
+  covers VK' (map fst (vote_dicts show_num show_nat vt j (canon_ballots show_num show_nat vt VK i l))) ->
+  covers VK' (map fst (vote_dicts show_num show_nat vt i l)).
+Proof.
+  induction l as [|b l IH]; intros i j Hl Hc Hc'; [intros d []|].
+  inversion Hl as [|? ? Wb Hl']; subst. rewrite vote_dicts_cons in *. cbn [canon_ballots] in Hc'.
+  rewrite vote_dicts_app, map_app in Hc'.
+  assert (Hcb : forall k, In k (keys (vote_dict vt i b)) -> In k VK).
+  { intros k Hk. apply (Hc (vote_dict vt i b)); [left; reflexivity|exact Hk]. }
+  intros d [<-|Hd] k Hk.
+  - (* the first copy of the canonical ballot carries the same keys *)
+    pose proof (wf_ballot_inv _ _ _ Wb) as (_ & _ & _ & _ & _ & _ & _).
+    assert (Hm : 1 <= b_mult b).
+    { unfold wf_ballot in Wb. rewrite !andb_true_iff in Wb. destruct Wb as (_ & Hm). apply Nat.leb_le; exact Hm. }
+    destruct (b_mult b) as [|m] eqn:Em; [lia|]. cbn [repeat] in Hc'. rewrite vote_dicts_cons in Hc'.
+    apply (Hc' (vote_dict vt j (canon_ballot show_num show_nat vt VK i b))).
+    + apply in_or_app. left. left. reflexivity.
+    + apply has_key_true. apply has_key_true in Hk. unfold has_key in *.
+      rewrite (canon_ballot_dict_lookup names names_ok vt i b VK Wb HVK Hcb j k). exact Hk.
+  - eapply (IH (S i)); [exact Hl'| | |exact Hd|exact Hk].
+    + intros d' Hd'. apply Hc. right; exact Hd'.
+    + intros d' Hd'. apply Hc'. apply in_or_app. right. exact Hd'.
+Qed.
+
+End CanonBallots.
+
+(* ---- the fields of [canon e] ---- *)
+Section CanonFields.
+Variable e : election.
+Local Notation ce := (canon show_num show_nat e).
+Local Notation PK := (project_keys show_num e).
+Local Notation VKe := (vote_keys show_num show_nat e).
+
+Definition cl_min_cost : option Q := match e_vtype e with Approval => nzq (e_min_cost e) | _ => None end.
+Definition cl_max_cost : option Q :=
+  match e_vtype e with
+  | Approval => drop_if (fun q => Qle_bool (e_budget e) q) (nzq (e_max_cost e)) | _ => None end.
+Definition cl_min_total : option Q := match e_vtype e with Cumulative => nzq (e_min_total e) | _ => None end.
+Definition cl_max_total : option Q := match e_vtype e with Cumulative => nzq (e_max_total e) | _ => None end.
+Definition cl_min_score : option Q :=
+  match e_vtype e with Scoring | Cumulative => nzq (e_min_score e) | _ => None end.
+Definition cl_max_score : option Q :=
+  match e_vtype e with
+  | Scoring => nzq (e_max_score e)
+  | Cumulative => drop_if (eq_total (nzq (e_max_total e))) (nzq (e_max_score e))
+  | _ => None end.
+
+Lemma canon_meta : e_meta ce = write_meta e.
+Proof. unfold canon. destruct (e_vtype e); reflexivity. Qed.
+Lemma canon_projects : e_projects ce = map (canon_project show_num PK) (e_projects e).
+Proof. unfold canon. destruct (e_vtype e); reflexivity. Qed.
+Lemma canon_budget : e_budget ce = e_budget e.
+Proof. unfold canon. destruct (e_vtype e); reflexivity. Qed.
+Lemma canon_vtype : e_vtype ce = e_vtype e.
+Proof. unfold canon. destruct (e_vtype e) eqn:E; reflexivity. Qed.
+Lemma canon_ballots_field : e_ballots ce = canon_ballots show_num show_nat (e_vtype e) VKe 0 (e_ballots e).
+Proof. unfold canon. destruct (e_vtype e); reflexivity. Qed.
+Lemma canon_min_len : e_min_len ce = c_min_len e.
+Proof. unfold canon, c_min_len. destruct (e_vtype e); reflexivity. Qed.
+Lemma canon_max_len : e_max_len ce = c_max_len e.
+Proof. unfold canon, c_max_len. destruct (e_vtype e); reflexivity. Qed.
+Lemma canon_min_cost : e_min_cost ce = cl_min_cost.
+Proof. unfold canon, cl_min_cost. destruct (e_vtype e); reflexivity. Qed.
+Lemma canon_max_cost : e_max_cost ce = cl_max_cost.
+Proof. unfold canon, cl_max_cost. destruct (e_vtype e); reflexivity. Qed.
+Lemma canon_min_total : e_min_total ce = cl_min_total.
+Proof. unfold canon, cl_min_total. destruct (e_vtype e); reflexivity. Qed.
+Lemma canon_max_total : e_max_total ce = cl_max_total.
+Proof. unfold canon, cl_max_total. destruct (e_vtype e); reflexivity. Qed.
+Lemma canon_min_score : e_min_score ce = cl_min_score.
+Proof. unfold canon, cl_min_score. destruct (e_vtype e); reflexivity. Qed.
+Lemma canon_max_score : e_max_score ce = cl_max_score.
+Proof. unfold canon, cl_max_score, eq_total. destruct (e_vtype e); reflexivity. Qed.
+
+Lemma canon_names : map p_name (e_projects ce) = map p_name (e_projects e).
+Proof. rewrite canon_projects, map_map. reflexivity. Qed.
+
+Lemma num_ballots_app l1 l2 : num_ballots (l1 ++ l2) = num_ballots l1 + num_ballots l2.
+Proof. induction l1 as [|b l1 IH]; simpl; [reflexivity|]. rewrite IH. lia. Qed.
+
+Lemma num_ballots_repeat b m : b_mult b = 1 -> num_ballots (repeat b m) = m.
+Proof. intros H. induction m as [|m IH]; simpl; [reflexivity|]. rewrite H, IH. reflexivity. Qed.
+
+Lemma num_ballots_canon vt K l : forall i,
+  num_ballots (canon_ballots show_num show_nat vt K i l) = num_ballots l.
+Proof.
+  induction l as [|b l IH]; intros i; simpl; [reflexivity|].
+  rewrite num_ballots_app, num_ballots_repeat by reflexivity. now rewrite IH.
+Qed.
+
+Lemma in_canon_ballots vt K l : forall i b',
+  In b' (canon_ballots show_num show_nat vt K i l) ->
+  exists j b, In b l /\ b' = canon_ballot show_num show_nat vt K j b
+              /\ In (vote_dict vt j b) (map fst (vote_dicts show_num show_nat vt i l)).
+Proof.
+  induction l as [|b l IH]; intros i b' H; [destruct H|]. cbn [canon_ballots] in H.
+  apply in_app_or in H as [H|H].
+  - apply repeat_spec in H. exists i, b. split; [left; reflexivity|]. split; [exact H|].
+    rewrite vote_dicts_cons. left. reflexivity.
+  - destruct (IH _ _ H) as (j & b0 & Hb0 & Hb' & Hd). exists j, b0.
+    split; [right; exact Hb0|]. split; [exact Hb'|]. rewrite vote_dicts_cons. right. exact Hd.
+Qed.
+
+End CanonFields.
+
+(* ---- [canon e] is well-formed: the META limit entries ---- *)
+Section CanonLimits.
+Variable e : election.
+Hypothesis W : wf_facts e.
+Local Notation ce := (canon show_num show_nat e).
+Local Notation stale_ok := (PabulibM.stale_ok read_num read_nat).
+Local Notation get_num := (PabulibM.get_num read_num).
+Local Notation get_nat := (PabulibM.get_nat read_nat).
+
+Lemma has_key_slot (e0 : election) k o :
+  assoc k (slots e0) = Some o ->
+  has_key k (compact (slots e0)) = match o with Some _ => true | None => false end.
+Proof.
+  intros H. unfold has_key. rewrite lookup_compact by apply slots_nodup. rewrite H. destruct o; reflexivity.
+Qed.
+
+Lemma has_key_compact (e0 : election) k :
+  has_key k (compact (slots e0)) = match assoc k (slots e0) with Some (Some _) => true | _ => false end.
+Proof.
+  unfold has_key. rewrite lookup_compact by apply slots_nodup. destruct (assoc k (slots e0)) as [[v|]|]; reflexivity.
+Qed.
+
+Lemma nzq_idem o : nzq (nzq o) = nzq o.
+Proof. destruct o as [q|]; [|reflexivity]. unfold nzq, drop_if. destruct (Qzero_b q) eqn:Z; [reflexivity|now rewrite Z]. Qed.
+
+Lemma nzq_nonzero o q : nzq o = Some q -> Qzero_b q = false.
+Proof. destruct o as [q'|]; [|discriminate]. unfold nzq, drop_if. destruct (Qzero_b q') eqn:Z; [discriminate|]. intros [= <-]. exact Z. Qed.
+
+Lemma num_slot_some q : Qzero_b q = false -> PabulibM.num_slot show_num (Some q) = Some (show_num q).
+Proof. intros Z. unfold PabulibM.num_slot. now rewrite Z. Qed.
+
+Lemma drop_if_some (f : Q -> bool) o q : drop_if f o = Some q -> o = Some q /\ f q = false.
+Proof. destruct o as [q'|]; [|discriminate]. simpl. destruct (f q') eqn:E; [discriminate|]. intros [= <-]. auto. Qed.
+
+Lemma get_num_inv k t r :
+  get_num k (write_meta e) = Some r -> lookup k (write_meta e) = Some t ->
+  exists q, read_num t = Some q /\ r = Some q.
+Proof.
+  unfold PabulibM.get_num. intros H Ht. rewrite Ht in H. destruct (read_num t) as [q|]; [|discriminate].
+  injection H as <-. exists q. auto.
+Qed.
+
+Ltac in_num := cbn [In num_limit_keys]; tauto.
+
+Lemma canon_limit_ok k t :
+  In k limit_keys -> lookup k (write_meta e) = Some t ->
+  has_key k (compact (slots ce)) = true \/ stale_ok ce k t = true.
+Proof.
+  pose proof (wf_q1 e W) as Q1. pose proof (wf_q2 e W) as Q2. pose proof (wf_q3 e W) as Q3.
+  pose proof (wf_q4 e W) as Q4. pose proof (wf_q5 e W) as Q5. pose proof (wf_q6 e W) as Q6.
+  intros Hk Ht. cbn [In limit_keys] in Hk.
+  destruct Hk as [<-|[<-|[<-|[<-|[<-|[<-|[<-|[<-|[]]]]]]]]].
+  - (* min_length *)
+    rewrite (has_key_slot ce _ _ (assoc_min_length ce)), canon_min_len, stale_min_length.
+    destruct (G_min_len e W) as (o & Eo & Do). unfold PabulibM.get_nat in Eo. rewrite Ht in Eo.
+    destruct (read_nat t) as [n|]; [|discriminate]. injection Eo as <-.
+    destruct (c_min_len e) as [[|[|m]]|] eqn:Ec; unfold c_min_len in Ec.
+    1,2: destruct (e_min_len e) as [[|[|?]]|]; discriminate Ec.
+    + left. reflexivity.
+    + right. simpl in Do. destruct n as [|[|n]]; try discriminate Do; reflexivity.
+  - (* max_length *)
+    rewrite (has_key_slot ce _ _ (assoc_max_length ce)), canon_max_len, stale_max_length.
+    destruct (G_max_len e W) as (o & Eo & Do). unfold PabulibM.get_nat in Eo. rewrite Ht in Eo.
+    destruct (read_nat t) as [n|]; [|discriminate]. injection Eo as <-.
+    rewrite canon_projects, map_length.
+    destruct (c_max_len e) as [[|m]|] eqn:Ec.
+    + unfold c_max_len in Ec. destruct (e_max_len e) as [[|?]|]; try discriminate Ec.
+      destruct (Nat.leb (List.length (e_projects e)) (S n0)); discriminate Ec.
+    + left. reflexivity.
+    + right. simpl in Do. destruct (Nat.leb (List.length (e_projects e)) n); [reflexivity|discriminate Do].
+  - (* min_sum_cost *)
+    rewrite has_key_compact, assoc_min_sum_cost, canon_vtype, canon_min_cost, stale_min_sum_cost, canon_vtype.
+    unfold cl_min_cost. destruct (e_vtype e) eqn:Evt.
+    + destruct (G_num e W $"min_sum_cost" (e_min_cost e) true) as (r & Er & C);
+        [in_num|rewrite assoc_min_sum_cost, Evt; reflexivity|exact Q1|].
+      destruct (get_num_inv _ _ _ Er Ht) as (q & Hr & ->). rewrite Hr.
+      pose proof (cases_nz e _ _ _ C) as D. simpl in D.
+      destruct (Qzero_b q) eqn:Z; [right; reflexivity|]. left.
+      rewrite <- D by (intros t' q' St Hr'; rewrite stale_min_sum_cost, Hr', Evt in St; exact St).
+      now rewrite num_slot_some.
+    + destruct (G_num e W $"min_sum_cost" None false) as (r & Er & _);
+        [in_num|rewrite assoc_min_sum_cost, Evt; reflexivity|reflexivity|].
+      destruct (get_num_inv _ _ _ Er Ht) as (q & Hr & _). rewrite Hr. right; reflexivity.
+    + destruct (G_num e W $"min_sum_cost" None false) as (r & Er & _);
+        [in_num|rewrite assoc_min_sum_cost, Evt; reflexivity|reflexivity|].
+      destruct (get_num_inv _ _ _ Er Ht) as (q & Hr & _). rewrite Hr. right; reflexivity.
+    + destruct (G_num e W $"min_sum_cost" None false) as (r & Er & _);
+        [in_num|rewrite assoc_min_sum_cost, Evt; reflexivity|reflexivity|].
+      destruct (get_num_inv _ _ _ Er Ht) as (q & Hr & _). rewrite Hr. right; reflexivity.
+  - (* max_sum_cost *)
+    rewrite has_key_compact, assoc_max_sum_cost, canon_vtype, canon_max_cost, stale_max_sum_cost,
+      canon_vtype, canon_budget.
+    unfold cl_max_cost. destruct (e_vtype e) eqn:Evt.
+    + destruct (G_num e W $"max_sum_cost" (e_max_cost e) true) as (r & Er & C);
+        [in_num|rewrite assoc_max_sum_cost, Evt; reflexivity|exact Q2|].
+      destruct (get_num_inv _ _ _ Er Ht) as (q & Hr & ->). rewrite Hr.
+      assert (D : drop_if (fun x => Qle_bool (e_budget e) x) (Some q)
+                  = drop_if (fun x => Qle_bool (e_budget e) x) (nzq (e_max_cost e))).
+      { apply (cases_drop e _ _ _ _ C). intros t' q' St Hr'. rewrite stale_max_sum_cost, Hr', Evt in St. exact St. }
+      simpl in D. destruct (Qle_bool (e_budget e) q) eqn:Z; [right; reflexivity|]. left.
+      rewrite <- D. rewrite num_slot_some; [reflexivity|].
+      symmetry in D. apply drop_if_some in D as (D & _). eapply nzq_nonzero; eauto.
+    + destruct (G_num e W $"max_sum_cost" None false) as (r & Er & _);
+        [in_num|rewrite assoc_max_sum_cost, Evt; reflexivity|reflexivity|].
+      destruct (get_num_inv _ _ _ Er Ht) as (q & Hr & _). rewrite Hr. right; reflexivity.
+    + destruct (G_num e W $"max_sum_cost" None false) as (r & Er & _);
+        [in_num|rewrite assoc_max_sum_cost, Evt; reflexivity|reflexivity|].
+      destruct (get_num_inv _ _ _ Er Ht) as (q & Hr & _). rewrite Hr. right; reflexivity.
+    + destruct (G_num e W $"max_sum_cost" None false) as (r & Er & _);
+        [in_num|rewrite assoc_max_sum_cost, Evt; reflexivity|reflexivity|].
+      destruct (get_num_inv _ _ _ Er Ht) as (q & Hr & _). rewrite Hr. right; reflexivity.
+  - (* min_points *)
+    rewrite has_key_compact, assoc_min_points, canon_vtype, canon_min_score, stale_min_points, canon_vtype.
+    unfold cl_min_score. destruct (e_vtype e) eqn:Evt.
+    + destruct (G_num e W $"min_points" None false) as (r & Er & _);
+        [in_num|rewrite assoc_min_points, Evt; reflexivity|reflexivity|].
+      destruct (get_num_inv _ _ _ Er Ht) as (q & Hr & _). rewrite Hr. right; reflexivity.
+    + destruct (G_num e W $"min_points" (e_min_score e) true) as (r & Er & C);
+        [in_num|rewrite assoc_min_points, Evt; reflexivity|exact Q5|].
+      destruct (get_num_inv _ _ _ Er Ht) as (q & Hr & ->). rewrite Hr.
+      assert (D : drop_if Qzero_b (Some q) = nzq (e_min_score e)).
+      { apply (cases_nz e _ _ _ C). intros t' q' St Hr'. rewrite stale_min_points, Hr', Evt in St. exact St. }
+      simpl in D. destruct (Qzero_b q) eqn:Z; [right; reflexivity|]. left.
+      rewrite <- D. now rewrite num_slot_some.
+    + destruct (G_num e W $"min_points" (e_min_score e) true) as (r & Er & C);
+        [in_num|rewrite assoc_min_points, Evt; reflexivity|exact Q5|].
+      destruct (get_num_inv _ _ _ Er Ht) as (q & Hr & ->). rewrite Hr.
+      assert (D : drop_if Qzero_b (Some q) = nzq (e_min_score e)).
+      { apply (cases_nz e _ _ _ C). intros t' q' St Hr'. rewrite stale_min_points, Hr', Evt in St. exact St. }
+      simpl in D. destruct (Qzero_b q) eqn:Z; [right; reflexivity|]. left.
+      rewrite <- D. now rewrite num_slot_some.
+    + destruct (G_num e W $"min_points" None false) as (r & Er & _);
+        [in_num|rewrite assoc_min_points, Evt; reflexivity|reflexivity|].
+      destruct (get_num_inv _ _ _ Er Ht) as (q & Hr & _). rewrite Hr. right; reflexivity.
+  - (* max_points *)
+    rewrite has_key_compact, assoc_max_points, canon_vtype, canon_max_score, stale_max_points, canon_vtype,
+      canon_max_total.
+    unfold cl_max_score, cl_max_total. destruct (e_vtype e) eqn:Evt.
+    + destruct (G_num e W $"max_points" None false) as (r & Er & _);
+        [in_num|rewrite assoc_max_points, Evt; reflexivity|reflexivity|].
+      destruct (get_num_inv _ _ _ Er Ht) as (q & Hr & _). rewrite Hr. right; reflexivity.
+    + destruct (G_num e W $"max_points" (e_max_score e) true) as (r & Er & C);
+        [in_num|rewrite assoc_max_points, Evt; reflexivity|exact Q6|].
+      destruct (get_num_inv _ _ _ Er Ht) as (q & Hr & ->). rewrite Hr.
+      assert (D : Some q = nzq (e_max_score e)).
+      { apply (cases_exact e _ _ _ C). intros t' St. rewrite stale_max_points, Evt in St.
+        destruct (read_num t'); discriminate St. }
+      left. rewrite <- D. rewrite num_slot_some; [reflexivity|]. symmetry in D. eapply nzq_nonzero; eauto.
+    + destruct (G_num e W $"max_points" (e_max_score e) true) as (r & Er & C);
+        [in_num|rewrite assoc_max_points, Evt; reflexivity|exact Q6|].
+      destruct (get_num_inv _ _ _ Er Ht) as (q & Hr & ->). rewrite Hr.
+      assert (D : drop_if (eq_total (nzq (e_max_total e))) (Some q)
+                  = drop_if (eq_total (nzq (e_max_total e))) (nzq (e_max_score e))).
+      { apply (cases_drop e _ _ _ _ C). intros t' q' St Hr'. rewrite stale_max_points, Hr', Evt in St. exact St. }
+      simpl in D. rewrite nzq_idem. fold (eq_total (nzq (e_max_total e)) q).
+      destruct (eq_total (nzq (e_max_total e)) q) eqn:Z; [right; reflexivity|]. left.
+      rewrite <- D. rewrite num_slot_some; [reflexivity|].
+      symmetry in D. apply drop_if_some in D as (D & _). eapply nzq_nonzero; eauto.
+    + destruct (G_num e W $"max_points" None false) as (r & Er & _);
+        [in_num|rewrite assoc_max_points, Evt; reflexivity|reflexivity|].
+      destruct (get_num_inv _ _ _ Er Ht) as (q & Hr & _). rewrite Hr. right; reflexivity.
+  - (* min_sum_points *)
+    rewrite has_key_compact, assoc_min_sum_points, canon_vtype, canon_min_total, stale_min_sum_points, canon_vtype.
+    unfold cl_min_total. destruct (e_vtype e) eqn:Evt.
+    1,2,4: destruct (G_num e W $"min_sum_points" None false) as (r & Er & _);
+        [in_num|rewrite assoc_min_sum_points, Evt; reflexivity|reflexivity|];
+      destruct (get_num_inv _ _ _ Er Ht) as (q & Hr & _); rewrite Hr; right; reflexivity.
+    destruct (G_num e W $"min_sum_points" (e_min_total e) true) as (r & Er & C);
+      [in_num|rewrite assoc_min_sum_points, Evt; reflexivity|exact Q3|].
+    destruct (get_num_inv _ _ _ Er Ht) as (q & Hr & ->). rewrite Hr.
+    assert (D : drop_if Qzero_b (Some q) = nzq (e_min_total e)).
+    { apply (cases_nz e _ _ _ C). intros t' q' St Hr'. rewrite stale_min_sum_points, Hr', Evt in St. exact St. }
+    simpl in D. destruct (Qzero_b q) eqn:Z; [right; reflexivity|]. left.
+    rewrite <- D. now rewrite num_slot_some.
+  - (* max_sum_points *)
+    rewrite has_key_compact, assoc_max_sum_points, canon_vtype, canon_max_total, stale_max_sum_points, canon_vtype.
+    unfold cl_max_total. destruct (e_vtype e) eqn:Evt.
+    + destruct (G_num e W $"max_sum_points" None false) as (r & Er & _);
+        [in_num|rewrite assoc_max_sum_points, Evt; reflexivity|reflexivity|].
+      destruct (get_num_inv _ _ _ Er Ht) as (q & Hr & _). rewrite Hr. right; reflexivity.
+    + destruct (G_num e W $"max_sum_points" None false) as (r & Er & C);
+        [in_num|rewrite assoc_max_sum_points, Evt; reflexivity|reflexivity|].
+      destruct (get_num_inv _ _ _ Er Ht) as (q & Hr & ->). exfalso.
+      assert (D : Some q = None).
+      { apply (cases_unwritten_none e _ _ _ C). intros t' St. rewrite stale_max_sum_points, Evt in St.
+        destruct (read_num t'); discriminate St. }
+      discriminate D.
+    + destruct (G_num e W $"max_sum_points" (e_max_total e) true) as (r & Er & C);
+        [in_num|rewrite assoc_max_sum_points, Evt; reflexivity|exact Q4|].
+      destruct (get_num_inv _ _ _ Er Ht) as (q & Hr & ->). rewrite Hr.
+      assert (D : Some q = nzq (e_max_total e)).
+      { apply (cases_exact e _ _ _ C). intros t' St. rewrite stale_max_sum_points, Evt in St.
+        destruct (read_num t'); discriminate St. }
+      left. rewrite <- D. rewrite num_slot_some; [reflexivity|]. symmetry in D. eapply nzq_nonzero; eauto.
+    + destruct (G_num e W $"max_sum_points" None false) as (r & Er & _);
+        [in_num|rewrite assoc_max_sum_points, Evt; reflexivity|reflexivity|].
+      destruct (get_num_inv _ _ _ Er Ht) as (q & Hr & _). rewrite Hr. right; reflexivity.
+Qed.
+End CanonLimits.
+
+(* ---- [canon e] is well-formed ---- *)
+Lemma oQcanon_drop (f : Q -> bool) o : oQcanon o = true -> oQcanon (drop_if f o) = true.
+Proof. destruct o as [q|]; simpl; [|reflexivity]. intros H. destruct (f q); [reflexivity|exact H]. Qed.
+
+Theorem canon_wf_facts e : wf_facts e -> wf_facts (canon show_num show_nat e).
+Proof.
+  intros W.
+  destruct (project_keys_facts e W) as (pt & Hpk & Hpnd & Hps & Hpcov).
+  destruct (vote_keys_facts e W) as (vt0 & Hvk & Hvnd & Hvs & Hvcov).
+  constructor.
+  - rewrite canon_meta. apply write_meta_nodup.
+  - rewrite canon_meta. intros kv Hkv. pose proof (write_meta_entries_ok e W) as H.
+    rewrite Forall_forall in H. apply (H kv Hkv).
+  - rewrite canon_meta. intros k t Hk Ht. apply (canon_limit_ok e W k t Hk Ht).
+  - rewrite canon_names. apply (wf_names_nodup e W).
+  - rewrite canon_projects. intros p' Hp'. apply in_map_iff in Hp' as (p & <- & Hp).
+    apply canon_project_wf; [apply (wf_projects e W p Hp)|exact Hpnd].
+  - rewrite canon_budget. apply (wf_budget e W).
+  - rewrite canon_vtype, canon_names, canon_ballots_field. intros b' Hb'.
+    apply in_canon_ballots in Hb' as (j & b & Hb & -> & Hd).
+    apply (canon_ballot_wf (map p_name (e_projects e)) (names_ok_of_wf e W)); [apply (wf_ballots e W b Hb)|exact Hvnd|].
+    intros k Hk. apply (Hvcov _ Hd k Hk).
+  - rewrite canon_min_cost. unfold cl_min_cost. destruct (e_vtype e); try reflexivity.
+    apply oQcanon_drop, (wf_q1 e W).
+  - rewrite canon_max_cost. unfold cl_max_cost. destruct (e_vtype e); try reflexivity.
+    apply oQcanon_drop. apply oQcanon_drop, (wf_q2 e W).
+  - rewrite canon_min_total. unfold cl_min_total. destruct (e_vtype e); try reflexivity.
+    apply oQcanon_drop, (wf_q3 e W).
+  - rewrite canon_max_total. unfold cl_max_total. destruct (e_vtype e); try reflexivity.
+    apply oQcanon_drop, (wf_q4 e W).
+  - rewrite canon_min_score. unfold cl_min_score. destruct (e_vtype e); try reflexivity;
+      apply oQcanon_drop, (wf_q5 e W).
+  - rewrite canon_max_score. unfold cl_max_score. destruct (e_vtype e); try reflexivity.
+    + apply oQcanon_drop, (wf_q6 e W).
+    + apply oQcanon_drop. apply oQcanon_drop, (wf_q6 e W).
+Qed.
+
+(* the converse of wf_election_facts: the facts decide the boolean *)
+Lemma wf_facts_electionb e : wf_facts e -> wf_electionb show_num read_num show_nat read_nat e = true.
+Proof.
+  intros W. unfold wf_electionb, wf_meta. rewrite !andb_true_iff. repeat split.
+  - apply nodup_strb_NoDup, (wf_meta_nodup e W).
+  - apply forallb_forall. intros kv Hkv. destruct (wf_meta_entries e W kv Hkv) as (A & B & C). now rewrite A, B, C.
+  - apply forallb_forall. intros k Hk. destruct (lookup k (e_meta e)) as [t|] eqn:E; [|reflexivity].
+    apply orb_true_iff. apply (wf_meta_limits e W k t Hk E).
+  - apply nodup_strb_NoDup, (wf_names_nodup e W).
+  - apply forallb_forall. apply (wf_projects e W).
+  - apply (wf_budget e W).
+  - apply forallb_forall. apply (wf_ballots e W).
+  - apply (wf_q1 e W).
+  - apply (wf_q2 e W).
+  - apply (wf_q3 e W).
+  - apply (wf_q4 e W).
+  - apply (wf_q5 e W).
+  - apply (wf_q6 e W).
+Qed.
+
+Theorem canon_wf e :
+  wf_electionb show_num read_num show_nat read_nat e = true ->
+  wf_electionb show_num read_num show_nat read_nat (canon show_num show_nat e) = true.
+Proof. intros H. apply wf_facts_electionb, canon_wf_facts, wf_election_facts, H. Qed.
+
+(* ---- idempotence ---- *)
+Section Idempotent.
+Variable e : election.
+Hypothesis W : wf_facts e.
+Local Notation ce := (canon show_num show_nat e).
+Local Notation num_slot := (PabulibM.num_slot show_num).
+Local Notation nat_slot := (PabulibM.nat_slot show_nat).
+
+Lemma assoc_In k (sl : list (str * option str)) o : assoc k sl = Some o -> In (k, o) sl.
+Proof.
+  induction sl as [|[k' o'] r IH]; simpl; [discriminate|]. destruct (str_eqb k k') eqn:E.
+  - apply str_eqb_eq in E. subst. intros [= ->]. left; reflexivity.
+  - intros H. right. apply IH, H.
+Qed.
+
+Lemma num_slot_drop (f : Q -> bool) o v : num_slot (drop_if f o) = Some v -> num_slot o = Some v.
+Proof. destruct o as [q|]; simpl; [|discriminate]. destruct (f q); [discriminate|]. intros H; exact H. Qed.
+
+Lemma mand_stable k0 :
+  lookup k0 (write_meta e) = Some (mandatory_value (e_meta e) k0) ->
+  mandatory_value (write_meta e) k0 = mandatory_value (e_meta e) k0.
+Proof. intros H. unfold mandatory_value at 1. now rewrite H. Qed.
+
+Lemma slot_stable k v : In (k, Some v) (slots ce) -> lookup k (write_meta e) = Some v.
+Proof.
+  unfold PabulibM.slots, type_slots.
+  rewrite canon_meta, canon_projects, canon_ballots_field, canon_budget, canon_vtype, canon_min_len, canon_max_len,
+    canon_min_cost, canon_max_cost, canon_min_total, canon_max_total, canon_min_score, canon_max_score.
+  rewrite map_length, num_ballots_canon.
+  intros H. apply in_app_or in H as [H|H].
+  - cbn [In] in H.
+    repeat (destruct H as [H|H];
+      [injection H as <- Hv;
+       first [ rewrite <- Hv; rewrite mand_stable; rewrite lookup_write_meta; reflexivity
+             | rewrite <- Hv; rewrite lookup_write_meta; reflexivity
+             | exact Hv
+             | idtac ] |]); try (destruct H).
+    + (* min_length *)
+      rewrite lookup_write_meta, assoc_min_length. unfold c_min_len in Hv.
+      destruct (e_min_len e) as [[|[|m]]|]; simpl in Hv; try discriminate Hv. simpl. now rewrite Hv.
+    + (* max_length *)
+      rewrite lookup_write_meta, assoc_max_length. unfold c_max_len in Hv.
+      destruct (e_max_len e) as [[|m]|]; simpl in Hv; try discriminate Hv.
+      destruct (Nat.leb (List.length (e_projects e)) (S m)); simpl in Hv; try discriminate Hv. simpl. now rewrite Hv.
+  - unfold cl_min_cost, cl_max_cost, cl_min_total, cl_max_total, cl_min_score, cl_max_score in H.
+    destruct (e_vtype e) eqn:Evt; cbn [In] in H.
+    + destruct H as [H|[H|[]]]; injection H as <- Hv.
+      * apply num_slot_drop in Hv. now rewrite lookup_write_meta, assoc_min_sum_cost, Evt, Hv.
+      * apply num_slot_drop, num_slot_drop in Hv. now rewrite lookup_write_meta, assoc_max_sum_cost, Evt, Hv.
+    + destruct H as [H|[H|[H|[]]]]; injection H as <- Hv.
+      * apply num_slot_drop in Hv. now rewrite lookup_write_meta, assoc_min_points, Evt, Hv.
+      * apply num_slot_drop in Hv. now rewrite lookup_write_meta, assoc_max_points, Evt, Hv.
+      * exact Hv.
+    + destruct H as [H|[H|[H|[H|[]]]]]; injection H as <- Hv.
+      * apply num_slot_drop in Hv. now rewrite lookup_write_meta, assoc_min_points, Evt, Hv.
+      * apply num_slot_drop, num_slot_drop in Hv. now rewrite lookup_write_meta, assoc_max_points, Evt, Hv.
+      * apply num_slot_drop in Hv. now rewrite lookup_write_meta, assoc_min_sum_points, Evt, Hv.
+      * apply num_slot_drop in Hv. now rewrite lookup_write_meta, assoc_max_sum_points, Evt, Hv.
+    + destruct H as [H|[]]. injection H as <- Hv. exact Hv.
+Qed.
+End Idempotent.
+
+Lemma c_min_len_idem e : c_min_len (canon show_num show_nat e) = c_min_len e.
+Proof.
+  unfold c_min_len at 1. rewrite canon_min_len. unfold c_min_len.
+  destruct (e_min_len e) as [[|[|m]]|]; reflexivity.
+Qed.
+
+Lemma c_max_len_idem e : c_max_len (canon show_num show_nat e) = c_max_len e.
+Proof.
+  unfold c_max_len at 1. rewrite canon_max_len, canon_projects, map_length. unfold c_max_len.
+  destruct (e_max_len e) as [[|m]|]; try reflexivity.
+  destruct (Nat.leb (List.length (e_projects e)) (S m)) eqn:E; [reflexivity|now rewrite E].
+Qed.
+
+Lemma drop_if_idem (f : Q -> bool) o : drop_if f (drop_if f o) = drop_if f o.
+Proof. destruct o as [q|]; [|reflexivity]. simpl. destruct (f q) eqn:E; [reflexivity|]. simpl. now rewrite E. Qed.
+
+Lemma nzq_drop_nzq (f : Q -> bool) o : nzq (drop_if f (nzq o)) = drop_if f (nzq o).
+Proof.
+  destruct (nzq o) as [q|] eqn:E; [|reflexivity]. simpl. destruct (f q); [reflexivity|].
+  apply nzq_nonzero in E. unfold nzq, drop_if. now rewrite E.
+Qed.
+
+Section IdemMain.
+Variable e : election.
+Hypothesis W : wf_facts e.
+Local Notation ce := (canon show_num show_nat e).
+
+Theorem canon_idempotent_facts_sec : election_equiv (canon show_num show_nat ce) ce.
+Proof.
+  pose proof (canon_wf_facts e W) as W'.
+  destruct (project_keys_facts e W) as (pt & Hpk & Hpnd & Hps & Hpcov).
+  destruct (vote_keys_facts e W) as (vt0 & Hvk & Hvnd & Hvs & Hvcov).
+  destruct (project_keys_facts ce W') as (pt' & Hpk' & Hpnd' & Hps' & Hpcov').
+  destruct (vote_keys_facts ce W') as (vt0' & Hvk' & Hvnd' & Hvs' & Hvcov').
+  constructor.
+  - (* META *)
+    rewrite (canon_meta ce). rewrite canon_meta.
+    apply dict_equiv_perm. split; [apply write_meta_nodup|]. split; [apply write_meta_nodup|].
+    intros k. rewrite (lookup_write_meta ce). rewrite canon_meta.
+    destruct (assoc k (slots ce)) as [[v|]|] eqn:E; try reflexivity.
+    symmetry. apply (slot_stable e). apply assoc_In. exact E.
+  - (* projects *)
+    rewrite (canon_projects ce). rewrite canon_projects.
+    assert (Hc : forall p, In p (e_projects e) ->
+               forall k, In k (keys (project_dict (canon_project show_num (project_keys show_num e) p))) ->
+                         In k (project_keys show_num ce)).
+    { intros p Hp. apply Hpcov'. rewrite canon_projects. apply in_map. exact Hp. }
+    pose proof (wf_projects e W) as Wp. revert Wp Hc Hpcov.
+    generalize (project_keys show_num ce) Hpnd'. intros K' HK'.
+    induction (e_projects e) as [|p ps IH]; intros Wp Hc Hcov; simpl; constructor.
+    + apply canon_project_idem; [apply Wp; left; reflexivity|exact Hpnd|apply Hcov; left; reflexivity|exact HK'|].
+      apply Hc. left; reflexivity.
+    + apply IH; intros; [apply Wp|eapply Hc|eapply Hcov]; try (right; eassumption); eassumption.
+  - rewrite (canon_budget ce). reflexivity.
+  - rewrite (canon_vtype ce). reflexivity.
+  - (* ballots *)
+    rewrite (canon_ballots_field ce). rewrite canon_ballots_field.
+    assert (Evt : e_vtype ce = e_vtype e) by apply canon_vtype. rewrite Evt.
+    assert (Hb : Forall (fun b => wf_ballot (e_vtype e) (map p_name (e_projects e)) b = true) (e_ballots e)).
+    { apply Forall_forall. apply (wf_ballots e W). }
+    apply (canon_ballots_idem (map p_name (e_projects e)) (names_ok_of_wf e W) (e_vtype e)
+             (vote_keys show_num show_nat e) (vote_keys show_num show_nat ce) Hvnd Hvnd' (e_ballots e) 0 0 Hb).
+    + exact Hvcov.
+    + apply (canon_dicts_cover (map p_name (e_projects e)) (names_ok_of_wf e W) (e_vtype e)
+               (vote_keys show_num show_nat e) (vote_keys show_num show_nat ce) Hvnd (e_ballots e) 0 0 Hb Hvcov).
+      unfold covers. rewrite Evt in Hvcov'. rewrite canon_ballots_field in Hvcov'.
+      exact Hvcov'.
+  - rewrite (canon_min_len ce). rewrite canon_min_len. apply c_min_len_idem.
+  - rewrite (canon_max_len ce). rewrite canon_max_len. apply c_max_len_idem.
+  - rewrite (canon_min_cost ce). rewrite canon_min_cost. unfold cl_min_cost.
+    rewrite canon_vtype, canon_min_cost. unfold cl_min_cost. destruct (e_vtype e); try reflexivity. apply nzq_idem.
+  - rewrite (canon_max_cost ce). rewrite canon_max_cost. unfold cl_max_cost.
+    rewrite canon_vtype, canon_max_cost, canon_budget. unfold cl_max_cost.
+    destruct (e_vtype e); try reflexivity. rewrite nzq_drop_nzq. apply drop_if_idem.
+  - rewrite (canon_min_total ce). rewrite canon_min_total. unfold cl_min_total.
+    rewrite canon_vtype, canon_min_total. unfold cl_min_total. destruct (e_vtype e); try reflexivity. apply nzq_idem.
+  - rewrite (canon_max_total ce). rewrite canon_max_total. unfold cl_max_total.
+    rewrite canon_vtype, canon_max_total. unfold cl_max_total. destruct (e_vtype e); try reflexivity. apply nzq_idem.
+  - rewrite (canon_min_score ce). rewrite canon_min_score. unfold cl_min_score.
+    rewrite canon_vtype, canon_min_score. unfold cl_min_score. destruct (e_vtype e); try reflexivity; apply nzq_idem.
+  - rewrite (canon_max_score ce). rewrite canon_max_score. unfold cl_max_score.
+    rewrite canon_vtype, canon_max_score, canon_max_total. unfold cl_max_score, cl_max_total.
+    destruct (e_vtype e) eqn:Evt; try reflexivity.
+    + apply nzq_idem.
+    + rewrite nzq_idem, nzq_drop_nzq. apply drop_if_idem.
+Qed.
+
+End IdemMain.
+
+Theorem canon_idempotent_facts e : wf_facts e ->
+  election_equiv (canon show_num show_nat (canon show_num show_nat e)) (canon show_num show_nat e).
+Proof. apply canon_idempotent_facts_sec. Qed.
+
+(* M roundtrip_idempotent: a well-formed election's normal form is well-formed again, and normalising it once
+   more changes nothing except the order of dictionary entries; hence a second write/parse round trip
+   returns the election of the first one up to that order *)
+Theorem roundtrip_idempotent e :
+  wf_electionb show_num read_num show_nat read_nat e = true ->
+  let e1 := canon show_num show_nat e in
+  parse_rows read_num read_nat (write_rows show_num show_nat e) = Some e1
+  /\ wf_electionb show_num read_num show_nat read_nat e1 = true
+  /\ exists e2, parse_rows read_num read_nat (write_rows show_num show_nat e1) = Some e2
+                /\ election_equiv e2 e1.
+Proof.
+  intros H e1. split; [apply parse_write_roundtrip; exact H|]. split; [apply canon_wf; exact H|].
+  exists (canon show_num show_nat e1). split; [apply parse_write_roundtrip, canon_wf; exact H|].
+  apply canon_idempotent_facts, wf_election_facts, H.
+Qed.
+
 End RoundTrip.
